@@ -819,17 +819,16 @@ def shrd(info, a, b, c):
                                         )
               )
 
-    new_cf = ExprAff(cf, ExprOp('&',
-                                ExprInt_from(a, 1),
-                                ExprOp('>>',
-                                       a,
-                                       ExprOp('-',
-                                              shifter,
-                                              ExprInt_from(b, 1)
-                                              )
-                                       )
-                                )
-                     )
+    new_cf = ExprOp('&',
+                    ExprInt_from(a, 1),
+                    ExprOp('>>',
+                           a,
+                           ExprOp('-',
+                                  shifter,
+                                  ExprInt_from(b, 1)
+                                  )
+                           )
+                    )
     e.append(ExprAff(cf, ExprCond(shifter,
                                   new_cf,
                                   cf)
